@@ -82,3 +82,56 @@ def ext_subset(rng, pool=None, pmax=4):
     pool = pool or EXTENSIONS
     k = rng.choice([0, 0, 1, 1, 2, 3, pmax, len(pool)])
     return sorted(rng.sample(pool, min(k, len(pool))))
+
+
+# ---------------------------------------------------------------- structured inline compositions (no spec needed:
+# used by the correspondence modules, where model and implementation are compared on the same input)
+def inline_nest(rng, depth=0, refs=None):
+    """a well-formed-looking composition of inline constructs, nested up to 3 deep, with escapes, code spans and
+    links/images (inline and reference style: labels are appended to `refs`) next to and inside emphasis"""
+    word = lambda: rng.choice(['a', 'b', 'c', 'x y', 'foo', 'é', '1', 'snake_case'])
+    def esc(): return '\\' + rng.choice('*_`[]()\\#!.-+>{}')
+    def code():
+        t = rng.choice(['`', '``']); b = rng.choice(['c', 'a*b', 'x_y', '[z]', 'p`q' if t == '``' else 'pq', '\\*'])
+        return t + b + t
+    def kids(d):
+        n = rng.randint(1, 4); parts = []
+        for _ in range(n):
+            parts.append(item(d))
+        return rng.choice([' ', ' ', '']).join(parts) if rng.random() < 0.8 else ' '.join(parts)
+    def item(d):
+        r = rng.random()
+        if d >= 3 or r < 0.30: return word()
+        if r < 0.38: return esc()
+        if r < 0.50: return code()
+        if r < 0.62:
+            c = rng.choice(['*', '_']); return c + kids(d + 1) + c
+        if r < 0.74:
+            c = rng.choice(['**', '__']); return c + kids(d + 1) + c
+        if r < 0.78:
+            c = rng.choice(['***', '___']); return c + kids(d + 1) + c
+        if r < 0.86:
+            t = kids(d + 1); u = rng.choice(['/u', 'http://e.x/a_b', '/p(q)', '<v w>']); ti = rng.choice(['', ' "T"', " 'a \\* b'", ' "5 \\* 3"'])
+            return '[%s](%s%s)' % (t, u, ti)
+        if r < 0.92:
+            lab = rng.choice(['r', 'ref two', 'R3']); 
+            if refs is not None: refs.add(lab)
+            return rng.choice(['[%s][%s]' % (kids(d + 1), lab), '[%s][]' % lab, '[%s]' % lab])
+        if r < 0.97:
+            alt = rng.choice([word(), 'a' + esc() + 'b', code() + ' z', kids(d + 1)])
+            lab = rng.choice(['r', 'img 1'])
+            if refs is not None: refs.add(lab)
+            return rng.choice(['![%s](/i.png%s)' % (alt, rng.choice(['', ' "t"'])), '![%s][%s]' % (alt, lab), '![%s]' % lab])
+        return rng.choice(['a  \nb', esc() + code(), code() + esc()])
+    return kids(depth)
+
+
+def inline_doc(rng):
+    """1-3 blocks (paragraph, heading, list item, quote) whose text is an inline_nest, plus the reference definitions used"""
+    refs = set(); blocks = []
+    for _ in range(rng.randint(1, 3)):
+        t = inline_nest(rng, 0, refs)
+        blocks.append(rng.choice(['', '', '# ', '- ', '> ', '1. ', '* # ']) + t)
+    defs = ['[%s]: /%s%s' % (l, l.replace(' ', '-'), rng.choice(['', ' "T %s"' % l])) for l in sorted(refs) if rng.random() < 0.85]
+    rng.shuffle(blocks)
+    return '\n\n'.join(blocks + defs)
